@@ -4,7 +4,7 @@ CONSTANTS
   Users = {"me", "a", "b"}
   Me = "me"
   Texts = {"t1", "t2"}
-  Vals = {1, 2}
+  Vals = {0, 1, 2}
   UserSets <- C_UserSetsAll
   Owners <- C_OwnersAll
   OpSets <- C_OpSetsAll
